@@ -226,7 +226,8 @@ public:
      * @return the number of segments
      */
     size_t segments_count() const {
-        return levels.back().size();
+        // With EpsilonRecursive > 0, an index made of the root segment alone has no level
+        return levels.empty() ? size_t(n > 0) : levels.back().size();
     }
 
     /**
